@@ -127,8 +127,8 @@ def _quant(kind):
         if isinstance(var, ast.Tuple):
             tname = var.elts[1].id
             var = var.elts[0]
-            sort = {"Int": z3.IntSort(), "Str": z3.StringSort()}.get(tname) or opaque_sort(tname)
-            vt = {"Int": Int, "Str": Str}.get(tname) or TOpaque(tname)
+            sort = z3.IntSort() if tname == "Int" else (z3.StringSort() if tname == "Str" else opaque_sort(tname))
+            vt = Int if tname == "Int" else (Str if tname == "Str" else TOpaque(tname))
         else:
             vt = Int
         name = var.id
@@ -182,9 +182,28 @@ def _old(ev, node):
         sub = ev.sub(frame=Frame(fr.contract, fr.relpath, fr.clsname, dict(fr.old_env), fn=fr.fn))
         sub.bound = dict(ev.bound)
     try:
-        return sub.expr(node.args[0])
+        v = sub.expr(node.args[0])
+        old_heap = st.heap
     finally:
         st.heap, st.ghost = saved_heap, saved_ghost
+    return _materialise_old(st, old_heap, v, 0)
+
+
+def _materialise_old(st, old_heap, v, depth):
+    """a reference computed in the old heap must keep denoting the OLD object: copy it into the current heap"""
+    if not isinstance(v, VRef) or depth > 3:
+        return v
+    o = old_heap.get(v.oid)
+    if o is None:
+        return v
+    c = o.copy()
+    if isinstance(c, Obj):
+        c.fields = {k: _materialise_old(st, old_heap, f, depth + 1) for k, f in c.fields.items()}
+    elif isinstance(c, DictObj):
+        c.items = {k: (_materialise_old(st, old_heap, f, depth + 1) if isinstance(f, V) else f) for k, f in c.items.items()}
+    elif isinstance(c, ListObj):
+        c.immutable = True
+    return st.alloc(c)
 
 
 def _ite(ev, node):
